@@ -54,6 +54,8 @@ class C06(Prop):
                 yield G.P({"a": "A", "b": "B", "c": c, "v": r.choice(["x${c}y", "${c}", "run: ${c}", "${w:${sel}}"]), "sel": "c", "w": {"c": c}})
         for i in range(150 if tier == "quick" else 3000):
             yield {"op": "params", "layers": D.escapes_in_containers(Rng(seed, "C06:esc", i)), "fam": "escapes_in_containers"}
+        for i in range(150 if tier == "quick" else 3000):
+            yield {"op": "params", "layers": D.escaped_through_lookup(Rng(seed, "C06:lookup", i)), "fam": "escaped_through_lookup"}
 
     def judge(self, req, impl, reply):
         if req.get("op") == "params":
